@@ -84,6 +84,10 @@ def c18(tapes, params):
                 lg.write(vals, now=rt, serial=serial)
                 if j >= 0 and g.chance(1, 6, 'junk?'):
                     k = g.draw(5, 'junk')
+                    # the corrupt line carries this record's time, or a later one (before the next record)
+                    nxt = chunk[j + 1][0] if j + 1 < len(chunk) else rt + 1.0
+                    if nxt - rt > 0.004 and g.chance(1, 2, 'junklater'):
+                        rt = round(rt + min((nxt - rt) / 2.0, 0.5), 3)
                     if k == 0:
                         lg.comment('rotated %d' % j)
                     elif k == 1:
